@@ -34,6 +34,8 @@ pub struct Cfg {
     pub search_at_ms: u64,
     /// an earlier non-announcing search (instant, info-hash) that refreshes part of the table
     pub warmup: Vec<(u64, [u8; 20])>,
+    /// (responder index, size): that responder holds 150 peers and pads its answers to exactly this size
+    pub exact_reply: Option<(usize, usize)>,
 }
 
 pub fn searcher_addr(v6: bool) -> SocketAddr {
@@ -79,6 +81,12 @@ pub fn build(cfg: &Cfg) -> (Scenario, Vec<Box<dyn Peer>>) {
             2 => vec![peer_addr(if i < 2 { 7 } else { 10 + i }, cfg.v6)],
             _ => vec![],
         };
+        if let Some((who, size)) = cfg.exact_reply {
+            if who == i {
+                r.values = (0..150).map(|k| peer_addr(500 + k, cfg.v6)).collect();
+                r.pad_reply_to = Some(size);
+            }
+        }
         peers.push(Box::new(r));
     }
     sc.nodes.push(NodeSpec {
@@ -201,7 +209,7 @@ pub fn judge(cfg: &Cfg, res: &RunResult) -> Vec<(String, String)> {
         ));
     }
     for (dst, p) in &announces {
-        let want_tok = all.iter().find(|(_, a, _)| a == dst).and_then(|(_, _, t)| t.clone());
+        let want_tok = answered.get(dst).cloned();
         if let Some(t) = want_tok {
             if p.token.as_ref() != Some(&t) {
                 v.push(("announce-carries-wrong-token".to_string(), format!("to {dst}: token {:?} instead of the one that node issued", p.token.as_ref().map(|t| String::from_utf8_lossy(t).to_string()))));
@@ -229,7 +237,7 @@ fn token_of(i: usize, id: &[u8; 20]) -> Vec<u8> {
 
 fn cfg_json(c: &Cfg) -> Value {
     json!({"ids": c.ids.iter().map(|i| hex(i)).collect::<Vec<_>>(), "searcher_id": hex(&c.searcher_id), "info_hash": hex(&c.info_hash), "contacts": c.contacts,
-        "read_only": c.read_only, "port": c.port, "announce": c.announce, "peer_sets": c.peer_sets, "name_searcher": c.name_searcher, "v6": c.v6, "rng_seed": c.rng_seed, "search_at_ms": c.search_at_ms, "warmup": c.warmup.iter().map(|(t, h)| json!([t, hex(h)])).collect::<Vec<_>>()})
+        "read_only": c.read_only, "port": c.port, "announce": c.announce, "peer_sets": c.peer_sets, "name_searcher": c.name_searcher, "v6": c.v6, "rng_seed": c.rng_seed, "search_at_ms": c.search_at_ms, "exact_reply": c.exact_reply.map(|(a, b)| json!([a, b])), "warmup": c.warmup.iter().map(|(t, h)| json!([t, hex(h)])).collect::<Vec<_>>()})
 }
 fn arr20(s: &str) -> [u8; 20] {
     let v = unhex(s);
@@ -251,6 +259,7 @@ fn cfg_parse(v: &Value) -> Cfg {
         v6: v["v6"].as_bool().unwrap_or(false),
         rng_seed: v["rng_seed"].as_u64().unwrap_or(1),
         search_at_ms: v["search_at_ms"].as_u64().unwrap_or(T_SEARCH),
+        exact_reply: v["exact_reply"].as_array().map(|a| (a[0].as_u64().unwrap() as usize, a[1].as_u64().unwrap() as usize)),
         warmup: v["warmup"].as_array().map(|a| a.iter().map(|w| (w[0].as_u64().unwrap(), arr20(w[1].as_str().unwrap()))).collect()).unwrap_or_default(),
     }
 }
@@ -328,7 +337,7 @@ pub fn structured(kind: u8, n: usize, seed: u64) -> Cfg {
     }
     ids.sort();
     ids.dedup();
-    Cfg { ids, searcher_id, info_hash, contacts: vec![0], read_only: true, port: None, announce: true, peer_sets: 2, name_searcher: false, v6: false, rng_seed: 1 + seed, search_at_ms: T_SEARCH, warmup: vec![] }
+    Cfg { ids, searcher_id, info_hash, contacts: vec![0], read_only: true, port: None, announce: true, peer_sets: 2, name_searcher: false, v6: false, rng_seed: 1 + seed, search_at_ms: T_SEARCH, warmup: vec![], exact_reply: None }
 }
 
 pub fn run(tier: Tier) -> Report {
@@ -359,7 +368,7 @@ pub fn run(tier: Tier) -> Report {
                     1 => ids[ids.len() / 2],
                     _ => *sid,
                 };
-                l1.push(Cfg { ids: ids.clone(), searcher_id: *sid, info_hash: ih, contacts: vec![0], read_only: true, port: None, announce: true, peer_sets: 2, name_searcher: false, v6: false, rng_seed: 1 + seed, search_at_ms: T_SEARCH, warmup: vec![] });
+                l1.push(Cfg { ids: ids.clone(), searcher_id: *sid, info_hash: ih, contacts: vec![0], read_only: true, port: None, announce: true, peer_sets: 2, name_searcher: false, v6: false, rng_seed: 1 + seed, search_at_ms: T_SEARCH, warmup: vec![], exact_reply: None });
             }
         }
     }
@@ -383,7 +392,7 @@ pub fn run(tier: Tier) -> Report {
                                 if v6 && (peer_sets == 0 || !read_only) {
                                     continue;
                                 }
-                                l3.push(Cfg { ids: ids.clone(), searcher_id: far, info_hash: ih, contacts: contacts.clone(), read_only, port, announce, peer_sets, name_searcher, v6, rng_seed: 1 + seed, search_at_ms: T_SEARCH, warmup: vec![] });
+                                l3.push(Cfg { ids: ids.clone(), searcher_id: far, info_hash: ih, contacts: contacts.clone(), read_only, port, announce, peer_sets, name_searcher, v6, rng_seed: 1 + seed, search_at_ms: T_SEARCH, warmup: vec![], exact_reply: None });
                             }
                         }
                     }
@@ -433,13 +442,24 @@ pub fn run(tier: Tier) -> Report {
         let step = tier.pick(500u64, 100u64);
         let mut t = 999_000u64;
         while t <= 1_008_000 {
-            stale.push(Cfg { ids: ids.clone(), searcher_id: sid, info_hash: target, contacts: vec![8, 9, 10, 0, 1], read_only: true, port: None, announce: true, peer_sets: 0, name_searcher: false, v6: false, rng_seed: 1 + seed, search_at_ms: t, warmup: vec![(100_000, far_hash), (300_000, near)] });
+            stale.push(Cfg { ids: ids.clone(), searcher_id: sid, info_hash: target, contacts: vec![8, 9, 10, 0, 1], read_only: true, port: None, announce: true, peer_sets: 0, name_searcher: false, v6: false, rng_seed: 1 + seed, search_at_ms: t, warmup: vec![(100_000, far_hash), (300_000, near)], exact_reply: None });
             t += step;
+        }
+    }
+    // answers of exactly 1493..1500 bytes (the largest a peer may send) from the 2nd closest node
+    let mut exact: Vec<Cfg> = vec![];
+    {
+        let ids: Vec<[u8; 20]> = (0..10u8).map(|i| prefix_id(i, 4, 0x37)).collect();
+        let ih = prefix_id(0, 4, 0x12);
+        for size in [1400usize, 1493, 1498, 1499, 1500] {
+            for who in [1usize, 6] {
+                exact.push(Cfg { ids: ids.clone(), searcher_id: far, info_hash: ih, contacts: vec![9], read_only: true, port: None, announce: true, peer_sets: 0, name_searcher: false, v6: false, rng_seed: 1 + seed, search_at_ms: T_SEARCH, warmup: vec![], exact_reply: Some((who, size)) });
+            }
         }
     }
     let mut distinct = std::collections::HashSet::new();
     let mut runs = 0u64;
-    for (name, set) in [("L1", &l1), ("L3", &l3), ("large", &big), ("stale-bucket", &stale)] {
+    for (name, set) in [("L1", &l1), ("L3", &l3), ("large", &big), ("stale-bucket", &stale), ("exact-size-answers", &exact)] {
         let outs = par_map(set, |_, cfg| {
             let (res, viol, _) = run_cfg(cfg, &[None], &[]);
             let announces = res.wire.iter().filter(|d| d.from_real && krpc::parse(&d.bytes).is_query("announce_peer")).count() as u64;
@@ -476,7 +496,7 @@ pub fn run(tier: Tier) -> Report {
     for t in tops.iter().filter(|t| t.len() >= 2 && (tier == Tier::Quick || t.len() <= 4)) {
         let ids: Vec<[u8; 20]> = t.iter().map(|i| uni[*i]).collect();
         for (sid, ih) in [(far, prefix_id(0, bits, 0x11)), (prefix_id(2, bits, 0x99), prefix_id(5, bits, 0x33)), (far, ids[0])] {
-            l2.push(Cfg { ids: ids.clone(), searcher_id: sid, info_hash: ih, contacts: vec![ids.len() - 1], read_only: true, port: Some(1234), announce: true, peer_sets: 1, name_searcher: false, v6: false, rng_seed: 1 + seed, search_at_ms: T_SEARCH, warmup: vec![] });
+            l2.push(Cfg { ids: ids.clone(), searcher_id: sid, info_hash: ih, contacts: vec![ids.len() - 1], read_only: true, port: Some(1234), announce: true, peer_sets: 1, name_searcher: false, v6: false, rng_seed: 1 + seed, search_at_ms: T_SEARCH, warmup: vec![], exact_reply: None });
         }
     }
     if tier == Tier::Quick {
